@@ -64,6 +64,8 @@ static int run_once(const char *text, int oi, int mode, int off0, unsigned char 
   set_opts(al, oi);
   if (mode == 1)
     asm_set_chunk_size(al, chunk);
+  else if (oi % 3 == 1)
+    asm_set_chunk_size(al, oi % 2); /* switching chunk fitting off explicitly (0 or 1: off) changes nothing: done for a third of the option combinations */
   asm_set_offset(al, off0);
   int ret;
   *dest = -1;
